@@ -552,13 +552,22 @@ Fixpoint run_inline (fl : flavour) (s : sess) (ms : list msg) : sess * list item
   end.
 
 (* ------------------------------------------------------------------ subscribe() *)
+(* on_replies.append(_subscribe(...)) / the single on_reply: the future being built gets one more member.  Request ids
+   of one subscribe(object) call need not be consecutive: a handler called from inside a send() may allocate ids too. *)
+Definition add_member (g rid : N) (gs : list (N * fut)) : list (N * fut) :=
+  match lookup g gs with
+  | Some f => assoc_set g {| f_single := f_single f; f_sealed := f_sealed f; f_members := f_members f ++ [(rid, None)] |} gs
+  | None => gs
+  end.
+
 (* request_id = self._request_id_gen.next(); self._subscribe_reqs[request_id] = SubscribeRequest(...) *)
 Definition record_sub (s : sess) (h : handler) (topic g : N) : sess :=
   let rid := s_next s + 1 in
   {| s_transport := s_transport s; s_joined := s_joined s; s_next := rid;
      s_subreqs := s_subreqs s ++ [(rid, {| sr_topic := topic; sr_handler := h; sr_group := g |})];
      s_unsubreqs := s_unsubreqs s; s_subs := s_subs s; s_objs := s_objs s;
-     s_gathers := s_gathers s; s_ever := s_ever s |}.
+     s_gathers := add_member g rid (s_gathers s);               (* on_reply will feed the future this call returns *)
+     s_ever := s_ever s |}.
 
 (* protocol.py _subscribe(obj, fn, topic, options, check_types): the request is recorded, THEN the message is sent;
    [rin] is what the transport delivers from inside that send() *)
@@ -588,7 +597,7 @@ Definition api_subscribe (fl : flavour) (s : sess) (sp : hspec) (o : option subo
   else if negb (s_transport s) then (s, [INow (ORaised ETransportLost)])
   else
     let g := s_next s + 1 in
-    let s0 := set_gathers s (s_gathers s ++ [(g, {| f_single := true; f_sealed := false; f_members := [(g, None)] |})])
+    let s0 := set_gathers s (s_gathers s ++ [(g, {| f_single := true; f_sealed := false; f_members := [] |})])
                           (s_objs s) in
     let '(s1, i1) := do_subscribe fl s0 (mk_handler false o sp) o topic g rin in
     let '(s2, i2) := return_future fl s1 g in
@@ -616,9 +625,6 @@ Fixpoint subscribe_all (fl : flavour) (s : sess) (g : N) (call : option subopts)
       let '(s2, i2) := subscribe_all fl s1 g call r in (s2, i1 ++ i2)
   end.
 
-Fixpoint member_ids (first : N) (ms : list method) : list (N * option result) :=
-  match ms with [] => [] | _ :: r => (first, None) :: member_ids (first + 1) r end.
-
 Definition methods_ok (call : option subopts) (ms : list method) : bool :=
   opts_ok call && forallb (fun m => opts_ok (snd (fst (fst m)))) ms.
 
@@ -629,7 +635,7 @@ Definition api_subscribe_obj (fl : flavour) (s : sess) (ms : list method) (call 
   else if negb (s_transport s) then (s, [INow (ORaised ETransportLost)])
   else
     let g := s_next s + 1 in
-    let s0 := set_gathers s (s_gathers s ++ [(g, {| f_single := false; f_sealed := false; f_members := member_ids g ms |})])
+    let s0 := set_gathers s (s_gathers s ++ [(g, {| f_single := false; f_sealed := false; f_members := [] |})])
                           (s_objs s) in
     let '(s1, i1) := subscribe_all fl s0 g call ms in
     let '(s2, i2) := return_future fl s1 g in
